@@ -426,6 +426,7 @@ def history_fault_case(arg):
 
 def run(tier, seed, work):
     res = vp.Result("C12", tier, seed, "fault_enumeration")
+    res.after_error_routes = ['retries_after_a_reported_fault', 'other_program_sets_written_after_a_reported_fault']      # routes added in round 12 (a handled failure followed by ordinary work): must have observed something
     shim = vp.build_shim()
     ops = QUICK_OPS if tier == "quick" else list(OPS)
     # the same operations in two more environments: under umask 077, and with the TOML destinations being links
@@ -462,6 +463,7 @@ def run(tier, seed, work):
                 "[toml, sbom, env, exec.d, exec.d-source, layer-dir, layer-file, plan, platform]) fault points that actually fired")
     res.assumptions = ["injected classes: %s (stat-family calls and ENOENT are never injected)" % CLASSES, "a fired fault followed by success is accepted only if the whole work tree is byte-identical to the fault-free run",
                        "faults are injected at the libc boundary by LD_PRELOAD; the failed call is not performed"]
+    res.required = list(getattr(res, "required", [])) + res.after_error_routes
     return res
 
 
